@@ -3,7 +3,7 @@
 TLA+ (spec/Fill.tla) decides; this driver renders abstract frames (cells: -1 = NaN, values >= 0, symbolic codes
 for the strange floats: spec/Fill.tla Specials) into numpy arrays / pd.Series / pd.DataFrame, calls df_fillna /
 nona - single calls and histories of calls on shared objects - and encodes results and arguments."""
-import datetime, json, math, struct, sys, warnings
+import datetime, json, math, random, struct, sys, warnings
 import numpy as np
 import pandas as pd
 from harness.x_pool import pmap
@@ -354,6 +354,11 @@ def observe_session(case):
 IN_PLACE = ('poke', 'put')
 
 
+def shares(a, b):
+    """the object a is b or (arrays: a slice is a view) shares its data with b"""
+    return a is b or (isinstance(a, np.ndarray) and isinstance(b, np.ndarray) and np.shares_memory(a, b))
+
+
 def derive(r, d, carrier, n0, offsets, ix):
     """the caller's own action between two calls (Fill.tla Derive), done the way a caller does it with pandas / numpy; `poke`
     (an observation is withdrawn) and `put` (one arrives) edit the object IN PLACE (a read-only array - what pandas hands out
@@ -437,7 +442,7 @@ def observe_psession(case):
                 tgt = x if a['a'] == 'edit' else cur
                 if 'frac' in a['d']:             # C2S: the row is chosen on the object as it is now (and recorded); an input
                     d, nr = a['d'], tgt.shape[0]     # object handed back by an empty method list is copied, not edited
-                    a['d'] = ({'kind': d['kind'], 'k': 0, 'i': 1 + int(d['frac'] * nr), 'j': d['j']} if nr and (a['a'] == 'edit' or (cur is not x and cur is not y))
+                    a['d'] = ({'kind': d['kind'], 'k': 0, 'i': 1 + int(d['frac'] * nr), 'j': d['j']} if nr and (a['a'] == 'edit' or not any(shares(cur, z) for z in (x, y)))
                               else {'kind': 'copy', 'k': 0, 'i': 0, 'j': 0})
                 try:
                     with warnings.catch_warnings():
@@ -970,6 +975,7 @@ def run(ctx):
                 'judged by Trace_Fill.  Non-trivial = the input has both NaN and valid cells and a call changed something; '
                 'distinct by (cells, methods, limit, family parameters / calls).')
     rng = ctx.rng
+    rngP = random.Random(ctx.seed * 1000003 + 1212)      # the process-session strata draw from their own seeded stream (the other families keep theirs)
     if ctx.quick:
         ctx.mc('MC_Fill', 'MC_Fill_quick.cfg')
         cases = canonical(ctx.generate('MC_Fill', 'MC_Fill_gen.cfg'))
@@ -988,7 +994,7 @@ def run(ctx):
         s2c(ctx, rng.sample(hists, 1200), 'histories', session_chunk)
         # process sessions: call ; the caller derives a new input from the result / builds another input of the same shape ; call
         psess = canonical(ctx.mc('MC_FillP', 'MC_FillP_quick.cfg').emitted)
-        chosen, ctx.extra['s2c_enumerated_process_sessions'] = pick_psessions(rng, psess, {'y_same': 500, 'y_other': 300, 'der_same': 800, 'der_other': 500, 'edit_same': 300, 'edit_other': 200, '*': 150})
+        chosen, ctx.extra['s2c_enumerated_process_sessions'] = pick_psessions(rngP, psess, {'y_same': 500, 'y_other': 300, 'der_same': 800, 'der_other': 500, 'edit_same': 300, 'edit_other': 200, '*': 150})
         s2c(ctx, chosen, 'process_sessions', psession_chunk)
         c2s(ctx, 400, 500, 300)
     else:
@@ -1007,9 +1013,11 @@ def run(ctx):
         hists = canonical(ctx.mc('MC_FillS', 'MC_FillS_gen.cfg').emitted)
         ctx.extra['s2c_enumerated_histories'] = len(hists)
         s2c(ctx, pick(hists, 20000), 'histories', session_chunk)
+        del hists, fams, core, rest
         ctx.mc('MC_FillP', 'MC_FillP_memo.cfg', must_fail='PRefines')       # a memo carried by the data object breaks the call after a derivation
         psess = canonical(ctx.mc('MC_FillP', 'MC_FillP_thorough.cfg').emitted)
-        chosen, ctx.extra['s2c_enumerated_process_sessions'] = pick_psessions(rng, psess, {'y_same': 12000, 'y_other': 6000, 'der_same': 14000, 'der_other': 8000, 'edit_same': 6000, 'edit_other': 4000, '*': 3000})
+        chosen, ctx.extra['s2c_enumerated_process_sessions'] = pick_psessions(rngP, psess, {'y_same': 12000, 'y_other': 6000, 'der_same': 14000, 'der_other': 8000, 'edit_same': 6000, 'edit_other': 4000, '*': 3000})
+        del psess
         s2c(ctx, chosen, 'process_sessions', psession_chunk)
         sims = ctx.generate('MC_FillP', 'MC_FillP_sim.cfg', simulate=3000, depth=40, seed=ctx.seed + 1, workers=1)      # longer sessions: 4 calls, <= 2 derivations in a row
         sims = [json.loads(c) for c in sorted({json.dumps(c, sort_keys=True) for c in sims})]
@@ -1029,7 +1037,8 @@ def run(ctx):
         'between (thorough: TLC-simulated sessions of 4 calls, <= 2 derivations in a row, limits <= 2, frames <= 3 x 2); a derivation is '
         'always passed on to the next call, an in-place edit of x is followed by a call on x; named deviation SameObject: a result whose '
         'contents equal the input may BE the input object (empty method list; ffill_na / ffill_0 on a Series without observations), so the '
-        'working object is edited in place only when its contents differ from the input it was made from or after a copying derivation; '
+        'working object is edited in place only when its contents differ from the input it was made from or after a copying derivation (a slice '
+        'of an array is a view: it does not count); '
         '"back onto the full calendar" needs labels and is not done to arrays; '
         'a read-only array result (pandas hands out read-only .values) is copied before it is edited',
         'IncreasingIndex: fnna, ffill_na, ffill_0 and nona(edge) find their boundary BY LABEL; they are exercised on strictly increasing '
